@@ -4,6 +4,7 @@ import (
 	"encoding/json"
 	"fmt"
 	"os"
+	"strings"
 
 	"github.com/conduitio/conduit/pkg/lifecycle-poc/funnel"
 
@@ -12,7 +13,92 @@ import (
 
 func emit(w *hx.Writer, c Case) {
 	o := Run(c)
-	w.Add(map[string]any{"input": c, "observed": o}, CoqCase(c, o))
+	w.Add(map[string]any{"input": c, "observed": o, "variant": TreeFix}, CoqCase(c, o))
+}
+
+func plainDest() Dest { return Dest{WriteErrAt: -1, Fail: [][]int{}, Chunks: []int{}, Acts: []Act{}} }
+
+func probeCase(lim limits, recs []Rec, procs []Proc, dest Dest) Case {
+	return Case{Recs: recs, Procs: procs, Dest: dest, Dlq: plainDest(), SrcActs: []Act{},
+		MaxAttempts: lim.attempts, MaxStall: lim.stall}
+}
+
+// ProbeFixes runs the minimal input of each C08/C09 finding once on the real
+// code and reads off which variant (shipped / repaired) the tree shows.
+func ProbeFixes(lim limits) Fixes {
+	var f Fixes
+	rec := func(k int, cond ...int) Rec { return Rec{Pos: Pos{k}, ID: []int{k}, Cond: cond} }
+	ks := func(names ...string) []Kind {
+		out := make([]Kind, len(names))
+		for i, n := range names {
+			out[i] = Kind{K: n}
+			if n == "multi" {
+				out[i].N = 2
+			}
+		}
+		return out
+	}
+	// S2: condition true for 0 and 2 of 4, one result for the two kept records
+	o := Run(probeCase(lim, []Rec{rec(0, 1), rec(1, 0), rec(2, 1), rec(3, 0)},
+		[]Proc{{Cond: true, Replies: []Reply{{Kinds: ks("same")}}}}, plainDest()))
+	f.CondPad = o.Term != "panic"
+	// more results than records
+	o = Run(probeCase(lim, []Rec{rec(0), rec(1)},
+		[]Proc{{Replies: []Reply{{Kinds: ks("same", "same", "filter")}}}}, plainDest()))
+	f.More = o.Term != "panic"
+	// nil source position that gets split
+	o = Run(probeCase(lim, []Rec{{Pos: nil, ID: []int{0}}, rec(1)},
+		[]Proc{{Replies: []Reply{{Kinds: ks("multi", "same")}}}}, plainDest()))
+	f.SrcPos = o.Term != "panic" && len(o.Events) == 0
+	// empty ack replies
+	d := plainDest()
+	d.Acts = []Act{{Call: 0, Act: "empty"}, {Call: 1, Act: "empty"}}
+	o = Run(probeCase(lim, []Rec{rec(0), rec(1)}, []Proc{}, d))
+	f.EmptyAck = o.Term == "err"
+	// nack of a piece whose run holds a filtered piece
+	d = plainDest()
+	d.Fail, d.Chunks = [][]int{{0, 1}, {1}}, []int{1}
+	o = Run(probeCase(lim, []Rec{rec(0), rec(1)},
+		[]Proc{{Replies: []Reply{{Kinds: ks("multi", "same")}}}, {Replies: []Reply{{Kinds: ks("filter", "same", "same")}}}}, d))
+	for _, e := range o.Events {
+		if e.K == "dlqwrite" {
+			for _, r := range e.Recs {
+				if len(r.ID) > 0 && r.ID[0] == 1 {
+					f.Unfilter = true
+				}
+			}
+		}
+	}
+	return f
+}
+
+func replayIsV1(path string) bool {
+	cs, err := hx.ReadJSONL(path)
+	if err != nil || len(cs) == 0 {
+		return false
+	}
+	in, ok := UnwrapReplay(cs[0])["input"].(map[string]any)
+	if !ok {
+		return false
+	}
+	e, _ := in["engine"].(string)
+	return e == "v1-proc" || e == "v1-acker" || e == "sandbox"
+}
+
+// UnwrapReplay accepts, besides a plain case line {"input":...}, a replay file
+// written by the driver ({"case": {...}, "original_case": {...}, ...}).
+func UnwrapReplay(m map[string]any) map[string]any {
+	if _, ok := m["input"]; ok {
+		return m
+	}
+	for _, k := range []string{"case", "original_case", "broken_correspondence_case"} {
+		if c, ok := m[k].(map[string]any); ok {
+			if _, ok := c["input"]; ok {
+				return c
+			}
+		}
+	}
+	return m
 }
 
 // Main is the entry point shared by cmd/c08 and cmd/c09.
@@ -20,10 +106,20 @@ func Main(prop string) {
 	o := hx.ParseFlags()
 	a, s := funnel.VerifRetryLimits()
 	lim := limits{a, s}
+	if o.Mode != "v1child" {
+		TreeFix = ProbeFixes(lim)
+	}
 	malformed := prop == "C09"
 	chk := "chk08"
 	if malformed {
 		chk = "chk09"
+	}
+	if o.Replay != "" && !strings.HasPrefix(o.Mode, "v1") && o.Mode != "probe" && replayIsV1(o.Replay) {
+		o.Mode = "v1:0:1"
+	}
+	if strings.HasPrefix(o.Mode, "v1") {
+		V1Main(o) // classic engine nodes + built-in connector sandbox (own case type, see v1.go)
+		return
 	}
 	if o.Mode == "probe" {
 		cs, err := hx.ReadJSONL(o.Replay)
@@ -52,6 +148,7 @@ func Main(prop string) {
 			os.Exit(2)
 		}
 		for _, m := range cs {
+			m = UnwrapReplay(m)
 			var c Case
 			var coq string
 			var ob Obs
@@ -61,12 +158,18 @@ func Main(prop string) {
 			_ = coq
 			emit(w, c)
 		}
-	case o.Mode == "cond":
-		maxN := 4
+	case strings.HasPrefix(o.Mode, "cond"):
+		// "cond:<i>:<n>": the i-th of n shards of the exhaustive condition enumeration
+		maxN := 3
 		if o.Tier == "thorough" {
 			maxN = 6
 		}
-		CondCases(lim, maxN, o.Shard, o.Shards, func(c Case) { emit(w, c) })
+		i, n := 0, 1
+		fmt.Sscanf(o.Mode, "cond:%d:%d", &i, &n)
+		if n < 1 || i < 0 || i >= n {
+			i, n = 0, 1
+		}
+		CondCases(lim, maxN, i, n, func(c Case) { emit(w, c) })
 	default:
 		root := hx.NewRand(o.Seed)
 		for i := 0; i < o.N; i++ {
